@@ -3048,19 +3048,34 @@ class Env(cabc.MutableMapping):
         # Compute the set of keys masked by DELETE_VAR. An overlay layer
         # may mask either an underlying overlay or `_d`/defaults; `_d`
         # itself may also hold the sentinel (set via swap thread-local).
+        # The most recent overlay that mentions a key decides, exactly as in
+        # __getitem__/__contains__: it either masks the key or provides it -
+        # also when `_d` masks it or does not have it at all.
         masked = set()
+        provided = set()
         for overlay in reversed(self._overlay_stack):
             for k, v in overlay.items():
-                if v is DELETE_VAR and k not in masked:
+                if k in masked or k in provided:
+                    continue
+                if v is DELETE_VAR:
                     masked.add(k)
+                else:
+                    provided.add(k)
         for key in self.rawkeys():
             if not isinstance(key, str):
                 continue
             if key in masked:
                 continue
+            if key in provided:
+                provided.discard(key)
+                yield key
+                continue
             if key in self._d and self._d[key] is DELETE_VAR:
                 continue
             yield key
+        for key in provided:
+            if isinstance(key, str):
+                yield key
 
     def __contains__(self, item):
         for overlay in reversed(self._overlay_stack):
